@@ -14,13 +14,20 @@ from fusion_engine_client.messages import defs
 
 notes = []
 mods = []
-for m in pkgutil.walk_packages(fusion_engine_client.__path__, 'fusion_engine_client.'):
-    try:
-        mods.append(importlib.import_module(m.name))
-    except Exception as e:
-        if m.name.startswith('fusion_engine_client.messages'):
-            raise
-        notes.append('module %s not importable (%s): skipped' % (m.name, type(e).__name__))
+PUBLIC_ONLY = os.environ.get('C03_PUBLIC_ONLY') == '1'
+if PUBLIC_ONLY:
+    # what a user of the library has after the public imports the decoder itself relies on: nothing else is imported here
+    exec('from fusion_engine_client.messages import *', {})
+    import fusion_engine_client.parsers        # noqa: F401
+    mods = [m for n, m in sorted(sys.modules.items()) if n.startswith('fusion_engine_client.') and m is not None]
+else:
+    for m in pkgutil.walk_packages(fusion_engine_client.__path__, 'fusion_engine_client.'):
+        try:
+            mods.append(importlib.import_module(m.name))
+        except Exception as e:
+            if m.name.startswith('fusion_engine_client.messages'):
+                raise
+            notes.append('module %s not importable (%s): skipped' % (m.name, type(e).__name__))
 
 enum_classes = {}
 import re
@@ -155,6 +162,9 @@ def snapshot():
 
 
 at_import = snapshot()
+if PUBLIC_ONLY:
+    os.write(OUT_FD, json.dumps(dict({'c03': 1}, **dict(at_import, notes=notes + at_import['notes'], loaded_modules=[m.__name__ for m in mods]))).encode() + b'\n')
+    sys.exit(0)
 
 # ---- use the library in this same interpreter, then look again ------------------------------------------------
 import c03_exercise            # noqa: E402  (same directory)
